@@ -156,6 +156,16 @@ Definition clone_from_slice (E : denv) (dst_ src : sl) : DM unit :=
   then for_n (s_len src) 0 (fun j => v <~ rd E (sl_at src j) ;; c <~ clone_ E v ;; assign E (sl_at dst_ j) c)
   else dfail.
 
+(** [while c { b }] with at most [fuel] rounds: answers [true] when the condition became false (the loop ended), [false] when the
+    fuel ran out with the loop still spinning *)
+Fixpoint while_ (fuel : nat) (c : DM bool) (b : DM unit) : DM bool :=
+  match fuel with
+  | 0 => dret false
+  | S f => x <~ c ;; if x then (b ;;~ while_ f c b) else dret true
+  end.
+(** still inside a busy-wait loop when the fuel ran out: not a return *)
+Definition spinning {A} : DM (option A) := dret None.
+
 (** [a % b]: panics on a zero divisor *)
 Definition umod (a b : nat) : DM nat := match b with 0 => dfail | _ => dret (a mod b) end.
 
